@@ -172,7 +172,10 @@ func (v *Value) PrettyString(quote bool) string {
 // borrowed from go's math library
 // https://go.dev/src/math/big/nat.go#L374
 func alias(x, y []*Cell) bool {
-	return cap(x) > 0 && cap(y) > 0 && &x[0:cap(x)][cap(x)-1] == &y[0:cap(y)][cap(y)-1]
+	// same end of the same storage and the same capacity means the same start;
+	// without the capacity test a tail view (popfirst) of an array would be
+	// taken for the array itself and reported as a circular reference
+	return cap(x) > 0 && cap(x) == cap(y) && &x[0:cap(x)][cap(x)-1] == &y[0:cap(y)][cap(y)-1]
 }
 
 func isSame(a *Value, b *Value) bool {
